@@ -230,3 +230,60 @@ def _origins(du: DefUse, e, at, fi, depth=0):
                 out.append(("other", f"{e.id} ({how})", e))
         return out
     return [("other", ast.unparse(e), e)]
+
+
+def run_inplace_own(p: Project, clause: str, modules, floor: int, exempt: dict | None = None) -> RuleResult:
+    """An attribute that some method of the class changes *in place* (`self.a.update(..)`, `self.a[k] = v`,
+    `del self.a[k]`, `.clear()`, `.pop()`, `.append()` ...) must be an object of the instance's own: every store
+    `self.a = <value>` in the class family stores a fresh object (display, comprehension, call result, copy) - never
+    another object's attribute (`canv.coords`) or a bare parameter.  Otherwise the in-place change shows through in
+    the object the value was taken from: CompositeCanvas(canv) sharing canv.coords lets overlay() / set_cursor() /
+    _drop_trimmed_cursor() write a cursor into (or delete it from) the wrapped - typically cached - canvas.
+
+    *exempt* names attributes whose sharing is handled by a flow-sensitive rule of its own (shards: FRESHLIST)."""
+    exempt = exempt or {}
+    rr = RuleResult("ALIAS", clause, "an attribute a class edits in place only ever holds an object of its own (no store of another object's attribute or of a bare parameter)", floor=floor)
+    for cls in p.classes.values():
+        if not any(cls.module.name == m or cls.module.name.startswith(m + ".") for m in modules):
+            continue
+        fam = [m for c in p.mro(cls) for m in getattr(c, "methods", {}).values()]
+        # attributes edited in place by a method defined in this class
+        edited = {}
+        for m in fam:
+            sn = m.self_name
+            if not sn:
+                continue
+            for n in m.own_nodes():
+                a = None
+                if isinstance(n, ast.Call) and isinstance(n.func, ast.Attribute) and n.func.attr in INPLACE:
+                    a = _self_attr(n.func.value, sn)
+                elif isinstance(n, ast.Subscript) and not isinstance(n.ctx, ast.Load):
+                    a = _self_attr(n.value, sn)
+                elif isinstance(n, ast.AugAssign):
+                    a = _self_attr(n.target, sn)
+                if a:
+                    edited.setdefault(a, (m, n))
+        for attr, (em, en) in sorted(edited.items()):
+            if attr in exempt:
+                rr.exceptions_used.append(f"{cls.name}.{attr}: {exempt[attr]}")
+                continue
+            for m in {id(x): x for x in fam}.values():
+                sn = m.self_name
+                if not sn:
+                    continue
+                for n in m.own_nodes():
+                    if isinstance(n, ast.AnnAssign) and n.value is not None:
+                        targets = [n.target]
+                    elif isinstance(n, ast.Assign):
+                        targets = n.targets
+                    else:
+                        continue
+                    for t in targets:
+                        if _self_attr(t, sn) != attr:
+                            continue
+                        ident = f"{cls.name}: {short(m)}: self.{attr} = {norm(n.value, 40)}"
+                        bad = _not_private(n.value, m)
+                        rr.inst(ident, True, {"store": ident, "edited_in_place_by": f"{short(em)}: {norm(en, 50)}", "private": not bad} if len(rr.samples) < 10 else None)
+                        if bad:
+                            rr.add(finding("ALIAS", m, n, f"`{norm(n, 60)}` makes `self.{attr}` {bad}, but {short(em)}() changes `self.{attr}` in place (`{norm(en, 50)}`): the change shows through in the object the value came from - a wrapped, typically cached, canvas gains or loses a cursor / pop-up", construct=f"self.{attr} shares a foreign object that is edited in place"))
+    return rr
